@@ -176,7 +176,7 @@ Theorem root_type_is_checked_against fuel S fm op n :
     K.check_operation fuel S fm op =
       K.check_directives S (op_vars op) (K.op_location (op_type op)) (op_dirs op)
       ++ match op_vars op with Some vs => K.check_variables_definition S vs | None => [] end
-      ++ (if optype_eqb (op_type op) Subscription && Nat.ltb 1 (K.count_fields fuel fm [] (op_sel op))
+      ++ (if optype_eqb (op_type op) Subscription && Nat.ltb 1 (length (K.collect_response_keys fuel fm [] (op_sel op) []))
           then [K.err0 K.SubscriptionMustHaveExactlyOneRootField (op_pos op)] else [])
       ++ K.check_selection_set fuel S fm (op_vars op) [] root (op_sel op).
 Proof.
@@ -220,7 +220,7 @@ Theorem root_decision_agrees st meta M D :
               /\ K.check_operation fuel D fm op =
                    K.check_directives D (op_vars op) (K.op_location (op_type op)) (op_dirs op)
                    ++ match op_vars op with Some vs => K.check_variables_definition D vs | None => [] end
-                   ++ (if optype_eqb (op_type op) Subscription && Nat.ltb 1 (K.count_fields fuel fm [] (op_sel op))
+                   ++ (if optype_eqb (op_type op) Subscription && Nat.ltb 1 (length (K.collect_response_keys fuel fm [] (op_sel op) []))
                        then [K.err0 K.SubscriptionMustHaveExactlyOneRootField (op_pos op)] else [])
                    ++ K.check_selection_set fuel D fm (op_vars op) [] root (op_sel op)).
 Proof.
